@@ -655,3 +655,64 @@ def rule_offset_inversion(ctx, rep):
     got = {tag[id(k)]: {tag[id(k2)]: v for k2, v in d.items()} for k, d in gri.items()}
     want = {"a": {}, "b": {"a": 1, "c": 3}, "c": {"a": -2}}
     rep.check(got == want, rule, "inversion table", where, got, want)
+
+
+# ---------------------------------------------------------------------------------------------- renderings (C02 / C18)
+
+def _paths_fixture(ctx):
+    g = Graph(ctx)
+    g.block("P", ["txn Amount", "bnz r"]); g.block("Q", ["int 1", "pop"]); g.block("R", ["r:", "int 2", "pop"]); g.block("J", ["int 1", "return"])
+    g.edge("P", "Q"); g.edge("P", "R"); g.edge("Q", "J"); g.edge("R", "J")
+    g.subroutine("main", "P", ["P", "Q", "R", "J"])
+    w = ctx.world
+    it = Interp(g.b.BB.mod)
+    ln = 1
+    for n in ("P", "Q", "R", "J"):
+        for ins in w.getattr(g.blocks[n], "instructions"):
+            it.assign_attr(ins, "line", ln)
+            ln += 1
+    for n, i in (("P", 0), ("Q", 5), ("R", 12), ("J", 3)):   # ids deliberately not in list order
+        it.assign_attr(g.blocks[n], "idx", i)
+    return g
+
+
+def rule_renderings(ctx, rep):
+    rule = "T-RENDER"
+    rep.rule(rule, "ExecutionPaths renderings: short notation is the block ids of the path joined by ' -> ' in path order; to_json lists, per path, "
+                   "the same short notation and per block the 'line: instruction' strings in order; count = number of paths; filter_paths removes "
+                   "exactly the paths whose short notation matches")
+    w = ctx.world
+    OUT = "tealer.utils.output"
+    EP = w.cls(OUT, "ExecutionPaths")
+    where = ctx.path(OUT)
+    g = _paths_fixture(ctx)
+    B = g.blocks
+    paths = [[B["P"], B["Q"], B["J"]], [B["P"], B["R"], B["J"]], [B["P"]]]
+    det = Obj(path_detectors(ctx)["rekey-to"]["cls"])
+    ep = w.new(EP, g.teal, det, [list(p) for p in paths])
+    want_short = ["0 -> 5 -> 3", "0 -> 12 -> 3", "0"]
+    for p, ws in zip(paths, want_short):
+        got = _call(ctx, ep, "_short_notation", p)
+        rep.check(got == ws, rule, f"short notation of {ws}", where, got, ws)
+    js = _call(ctx, ep, "to_json")
+    if not isinstance(js, dict):
+        rep.violation(rule, "to_json runs", where, js, "a dict")
+        return
+    it = Interp(EP.mod)
+    want_blocks = [[[f"{w.getattr(i, 'line')}: {it.to_str(i)}" for i in w.getattr(b, "instructions")] for b in p] for p in paths]
+    got_paths = js.get("paths")
+    rep.check(js.get("count") == 3 and isinstance(got_paths, list) and len(got_paths) == 3, rule, "json count = number of paths", where,
+              {"count": js.get("count"), "paths": len(got_paths) if isinstance(got_paths, list) else got_paths}, {"count": 3, "paths": 3})
+    if isinstance(got_paths, list):
+        for k, (gp, ws, wb) in enumerate(zip(got_paths, want_short, want_blocks)):
+            rep.check(isinstance(gp, dict) and gp.get("short") == ws, rule, f"json short of path {k}", where, gp.get("short") if isinstance(gp, dict) else gp, ws)
+            rep.check(isinstance(gp, dict) and gp.get("blocks") == wb, rule, f"json blocks of path {k}", where, gp.get("blocks") if isinstance(gp, dict) else gp, wb)
+    rep.check(js.get("check") == "rekey-to" and js.get("type") == "ExecutionPaths", rule, "json names the detector", where, {"check": js.get("check"), "type": js.get("type")}, "rekey-to")
+    # filtering
+    for pattern, keep in (("", [0, 1, 2]), ("5", [1, 2]), ("0 -> 12", [0, 2]), ("^0$", [0, 1]), ("3$", [2]), ("99", [0, 1, 2]), ("1", [0, 2])):
+        ep2 = w.new(EP, g.teal, det, [list(p) for p in paths])
+        r = _call(ctx, ep2, "filter_paths", pattern)
+        got = w.getattr(ep2, "paths")
+        gk = [k for k, p in enumerate(paths) if any(p == q for q in got)] if isinstance(got, list) else got
+        rep.check(gk == keep and isinstance(got, list) and len(got) == len(keep), rule, f"filter '{pattern}'", where, gk, keep,
+                  why="--filter-paths must remove exactly the paths whose short notation matches the pattern")
